@@ -79,7 +79,7 @@ CONFORMANCE = [
          "readLine: all fields reset; a section line sets field0 (+ optionally field1) only"),
 ]
 S_WRITEFILE = sl("writeBasisFile", "src/soplex.hpp", r"bool\s+SoPlexBase<R>::writeBasisFile\s*\(\s*const\s+char\*\s+filename\s*,\s*const\s+NameSet\*\s+rowNames\s*,\s*const\s+NameSet\*\s+colNames\s*,\s*const\s+bool\s+cpxFormat\s*\)\s*const",
-                 [r"_basisStatusCols\[col\] == SPxSolverBase<R>::BASIC", r"_basisStatusRows\[row\] != SPxSolverBase<R>::BASIC", r'file << " XU ";', r"std::ofstream file\(filename\);"])
+                 [r"_basisStatusCols\[col\] == SPxSolverBase<R>::BASIC", r"_basisStatusRows\[row\] != SPxSolverBase<R>::BASIC", r'file << " XU ";', r"std::ofstream file\(filename\);", r'file << \("x" \+ std::to_string\(col\)\);'])
 EXTRACTS = [
     {"as": "Solver_VarStatus.inc", "file": "src/soplex/spxsolver.h", "regex": r"enum VarStatus\s*\{.*?\};"},
     {"as": "RangeType.inc", "file": "src/soplex.h", "regex": r"typedef enum\s*\{[^{}]*?RANGETYPE_FREE = 0,[^{}]*?\}\s*RangeType;"},
@@ -159,10 +159,10 @@ def writefile_loops(outer, inner, name_fields):
     ]
 
 TRUSTED = [
-    "std::ostream (writeBasis) / std::ofstream (writeBasisFile) are ghost-recording stubs: a small state machine assembles the inserted tokens into records <indicator> <column name> [<row name>] <end of line> and publishes the record(s) naming the ghost columns / ghost row; indicator literals are classified by their characters; std::setw pads the NEXT inserted item only (standard semantics; only the ofstream stub models it, to detect blanks inside a two-token name); setf(std::ios::left) is ignored",
+    "std::ostream (writeBasis) / std::ofstream (writeBasisFile) are ghost-recording stubs: a small state machine assembles the inserted tokens into records <indicator> <column name> [<row name>] <end of line> and publishes the record(s) naming the ghost columns / ghost row; indicator literals are classified by their characters; std::setw pads the NEXT inserted item only (standard semantics; only the ofstream stub models it, to detect blanks inside a two-token name); setf(std::ios::left) is ignored; std::string / std::to_string / `\"<letter>\" + std::string` (default column names of writeBasisFile) are a stub carrying the ghost form (prefix letter, integer value) = the text <letter><decimal digits>, inserted into the ofstream as ONE name field (a padded string gets trailing blanks only); operator+ sits at global scope (the front end has no argument-dependent lookup)",
     "names are abstracted to the (kind, index) of the LP row / column they denote: the name of key k in a supplied NameSet is the address pool + k (NameSet::operator[]), spxSnprintf(buf, 16, \"x%d\"|\"C%d\", idx) leaves its result in ghost state (no characters are written), NameSet::has(key) is arbitrary (any subset of rows/columns may carry a user name); DataKeys are abstracted to positions (key of row/column n = (-1/+1, n)): NameSet key<->name and LP index<->key are assumed injective",
     "valid-descriptor precondition of the writers = as many basic columns as nonbasic rows (the number of basic variables equals the number of rows), given through ghost prefix-count arrays cb / nrw whose defining recurrence (and the consequences 0 <= cnt[n] <= n, monotonicity) is instantiated by __CPROVER_assume in the DataArray accessor at every index the code reads; for every status array the true prefix counts satisfy all instances, so no execution of the real code is excluded",
-    "readBasis: std::stringstream is a stub whose state (0 empty, 1 one literal, 2 one literal + one int, 3 longer) lives in ghost variables and is reset by the constructor (and by str(\"\")); NameSet::add(key, str) registers what str() last produced at the next position; NameSet::number(field) returns the position the MPSInput stub chose for that field (-1 = unknown name) and asserts that field2 is looked up in the column set and field3 in the row set",
+    "readBasis: std::stringstream is a stub whose state (0 empty, 1 one literal, 2 one literal + one int, 3 longer) lives in ghost variables and is reset by the constructor (and by str(\"\")), so a stream declared inside the loop body is fresh in every iteration while one declared in front of the loop accumulates (one stream is live at a time); NameSet::add(key, str) registers what str() last produced at the next position; NameSet::number(field) returns the position the MPSInput stub chose for that field (-1 = unknown name) and asserts that field2 is looked up in the column set and field3 in the row set",
     "readBasis: MPSInput is a stub with the real data members and the real bodies of section/field0..3/hasError/setSection/syntaxError; readLine() replays an arbitrary line: a section line (field0 = any non-empty token of up to 7 characters, field1 optional, others null) or a data line (field0 null, field1 = any token of up to 3 characters, field2/field3 present up to an arbitrary point), or end of input; this over-approximates mpsinput.cpp (conformance-checked shape); strcmp is an unrolled 8-character comparison",
     "readBasis: spx_alloc / placement new / explicit destructor / spx_free of the temporary NameSets: spx_alloc hands out one of two spare stub objects, `new(p) NameSet()` is mapped to `p` by a macro (the spare is already default-constructed; the temporary the macro creates is destroyed at once, hence 2 destructor calls per set), ~NameSet and spx_free are counted",
     "readBasis: `Desc l_desc(thedesc)` copies into two scratch arrays with UNSPECIFIED contents (readBasis overwrites every entry); load(theLP, false), setStatus(REGULAR), loadDesc(l_desc) are recorded (loadDesc snapshots the descriptor at the ghost indices); supplied name sets have exactly one name per row / column (number() < nRows / nCols): precondition",
@@ -255,13 +255,17 @@ instances += [
      "slices": COMMON + [S_READ], "loops": reader_loops(READ_IDS, False), "min_obligations": 300, "tier": "quick", "expected_s": 90,
      "mutants": [
          mut("row_set_not_freed", "readBasis", "p_rowNames->~NameSet();\n      spx_free(p_rowNames);", "p_rowNames->~NameSet();"),
-         mut("row_names_one_short", "readBasis", "for(int i = 0; i < nRows; ++i)\n      {\n         name << \"C\" << i;", "for(int i = 0; i < nRows - 1; ++i)\n      {\n         name << \"C\" << i;"),
+         mut("row_names_one_short", "readBasis", "for(int i = 0; i < nRows; ++i)\n      {\n         std::stringstream name;", "for(int i = 0; i < nRows - 1; ++i)\n      {\n         std::stringstream name;"),
      ]},
     {"name": "readBasis_default_names_exact", "function": "SPxBasisBase<R>::readBasis(...) [clause: the default name registered for column j / row i is exactly x<j> / C<i>]",
      "defines": {"INST_READ": "", "CLAUSE_DEFAULT_NAMES_EXACT": ""}, "harness": "h_readBasis", "enforce": "w_readBasis",
-     "slices": COMMON + [S_READ], "loops": reader_loops(READ_IDS, True), "min_obligations": 300, "tier": "thorough", "expected_s": 90,
+     "slices": COMMON + [S_READ], "loops": reader_loops(READ_IDS, True), "min_obligations": 300, "tier": "quick", "expected_s": 90,
      "mutants": [
          mut("column_letter", "readBasis", "name << \"x\" << j;", "name << \"y\" << j;"),
+         mut("row_number_off_by_one", "readBasis", "name << \"C\" << i;", "name << \"C\" << i + 1;"),
+         # re-introduce the fixed defect (d812fcf): one stream declared in front of the loop, never cleared => x0, x0x1, ...
+         mut("column_stream_outside_loop", "readBasis", "for(int j = 0; j < nCols; ++j)\n      {\n         std::stringstream name;", "std::stringstream name;\n\n      for(int j = 0; j < nCols; ++j)\n      {"),
+         mut("row_stream_outside_loop", "readBasis", "for(int i = 0; i < nRows; ++i)\n      {\n         std::stringstream name;", "std::stringstream name;\n\n      for(int i = 0; i < nRows; ++i)\n      {"),
      ]},
 ]
 
@@ -272,6 +276,8 @@ WF_MUTANTS = [
     mut("basic_rows_paired", "writeBasisFile", "if(_basisStatusRows[row] != SPxSolverBase<R>::BASIC)\n                  break;", "if(_basisStatusRows[row] == SPxSolverBase<R>::BASIC)\n                  break;"),
     mut("ul_for_lower", "writeBasisFile", "if(_basisStatusCols[col] == SPxSolverBase<R>::ON_UPPER)", "if(_basisStatusCols[col] == SPxSolverBase<R>::ON_LOWER)"),
     mut("writes_although_loaded", "writeBasisFile", "if(_isRealLPLoaded)", "if(_isRealLPLoaded && _hasBasis)"),
+    mut("default_column_name_of_row", "writeBasisFile", 'file << ("x" + std::to_string(col));\n\n            file << "       ";', 'file << ("x" + std::to_string(row));\n\n            file << "       ";'),
+    mut("default_column_name_letter", "writeBasisFile", 'file << ("x" + std::to_string(col));\n\n               file << "\\n";', 'file << ("C" + std::to_string(col));\n\n               file << "\\n";'),
 ]
 instances += [
     {"name": "writeBasisFile_unloaded", "function": "SoPlexBase<R>::writeBasisFile(const char* filename, const NameSet* rowNames, const NameSet* colNames, const bool cpxFormat) const",
@@ -280,8 +286,13 @@ instances += [
      "mutants": WF_MUTANTS},
     {"name": "writeBasisFile_unloaded_name_fields", "function": "SoPlexBase<R>::writeBasisFile(...) const [clause: every name is written as one blank-free field]",
      "defines": {"INST_WRITEFILE": "", "CLAUSE_NAME_FIELDS": ""}, "harness": "h_writeBasisFile", "enforce": "w_writeBasisFile",
-     "slices": COMMON + [S_WRITEFILE], "loops": writefile_loops(1, 0, True), "min_obligations": 300, "tier": "thorough", "expected_s": 60,
-     "mutants": [mut("setw_before_row_name", "writeBasisFile", 'file << "       ";', 'file << "       " << std::setw(8);')]},
+     "slices": COMMON + [S_WRITEFILE], "loops": writefile_loops(1, 0, True), "min_obligations": 300, "tier": "quick", "expected_s": 60,
+     "mutants": [
+         mut("setw_before_row_name", "writeBasisFile", 'file << "       ";', 'file << "       " << std::setw(8);'),
+         # re-introduce the fixed defect (27c7e8b): the stand-alone setw(8) is consumed by the letter => `x       <col>`
+         mut("default_column_name_two_tokens", "writeBasisFile", 'file << ("x" + std::to_string(col));\n\n            file << "       ";', 'file << "x" << col;\n\n            file << "       ";'),
+         mut("default_column_name_two_tokens_ul", "writeBasisFile", 'file << ("x" + std::to_string(col));\n\n               file << "\\n";', 'file << "x" << col;\n\n               file << "\\n";'),
+     ]},
 ]
 
 unit = {
